@@ -389,6 +389,98 @@ func refusedLoginsHeld(s *hx.Server, n int) (string, []net.Conn) {
 	return fmt.Sprintf("%d logins with a wrong key, %d refused, peers keep the connections open; %d of %d closed by the server after 300 ms", n, refused, closedByServer, len(held)), held
 }
 
+// workConnReset: a session registers a tcp proxy and answers every ReqWorkConn with a work connection that it resets (or
+// closes) right after the NewWorkConn message, so that the server's StartWorkConn write hits a dead link; 6 users keep
+// connecting to the remote port meanwhile.
+func workConnReset(g *hx.Gen, s *hx.Server, pool int, d time.Duration) string {
+	p, _, err := s.Login(hx.LoginOpts{User: "wr", PoolCount: pool})
+	if err != nil || p == nil {
+		return "login refused"
+	}
+	defer p.Close()
+	port := hx.FreePort(s.Addr)
+	if r, err := p.NewProxy(&msg.NewProxy{ProxyName: fmt.Sprintf("wr%d", port), ProxyType: "tcp", RemotePort: port}); err != nil || r.Error != "" {
+		return "registration refused"
+	}
+	stop := make(chan struct{})
+	var offered, users int64
+	var wg sync.WaitGroup
+	offer := func(how int) {
+		w, err := p.WorkConn(true)
+		if err != nil {
+			return
+		}
+		atomic.AddInt64(&offered, 1)
+		switch how {
+		case 0:
+			if tc, ok := w.(*net.TCPConn); ok {
+				_ = tc.SetLinger(0)
+			}
+			w.Close()
+		case 1:
+			w.Close()
+		default:
+			time.Sleep(time.Duration(how) * 300 * time.Microsecond)
+			if tc, ok := w.(*net.TCPConn); ok {
+				_ = tc.SetLinger(0)
+			}
+			w.Close()
+		}
+	}
+	wg.Add(1)
+	go func() { // the owner: every ReqWorkConn gets two doomed work connections
+		defer wg.Done()
+		k := 0
+		for {
+			select {
+			case <-stop:
+				return
+			default:
+			}
+			m, err := p.Recv(100 * time.Millisecond)
+			if err != nil {
+				if ne, ok := err.(net.Error); ok && ne.Timeout() {
+					continue
+				}
+				return
+			}
+			if _, ok := m.(*msg.ReqWorkConn); ok {
+				k++
+				go offer(k % 5)
+				go offer((k + 2) % 5)
+			}
+		}
+	}()
+	for u := 0; u < 6; u++ {
+		wg.Add(1)
+		go func() {
+			defer wg.Done()
+			for {
+				select {
+				case <-stop:
+					return
+				default:
+				}
+				conn, err := net.DialTimeout("tcp", net.JoinHostPort(s.Addr, fmt.Sprint(port)), 300*time.Millisecond)
+				if err != nil {
+					time.Sleep(5 * time.Millisecond)
+					continue
+				}
+				atomic.AddInt64(&users, 1)
+				_, _ = conn.Write([]byte("x"))
+				_ = conn.SetReadDeadline(time.Now().Add(20 * time.Millisecond))
+				b := make([]byte, 8)
+				_, _ = conn.Read(b)
+				conn.Close()
+			}
+		}()
+	}
+	time.Sleep(d)
+	close(stop)
+	wg.Wait()
+	return fmt.Sprintf("pool count %d: %d work connections offered and reset at once, %d user connections", pool, atomic.LoadInt64(&offered), atomic.LoadInt64(&users))
+}
+
 func runServerDirected(cfg *hx.RunCfg, c *child, s *hx.Server, raceMode bool, record func(kind, typ, detail string, alive, wd bool),
 	crashed func(kind, detail string) bool, fails *[]map[string]any) {
 	scale := func(quick, thorough int) int {
@@ -471,6 +563,18 @@ func runServerDirected(cfg *hx.RunCfg, c *child, s *hx.Server, raceMode bool, re
 		}
 		record("directed:refused-logins-held", "Login", detail, true, werr == nil)
 		time.Sleep(100 * time.Millisecond)
+	}
+	// 1d. work connections that are reset right after they were offered, while users connect
+	for _, pool := range []int{0, 2} {
+		if !c.alive() {
+			break
+		}
+		detail := workConnReset(g, s, pool, time.Duration(scale(700, 3000))*time.Millisecond)
+		time.Sleep(30 * time.Millisecond)
+		if crashed("directed:workconn-reset", detail) {
+			return
+		}
+		record("directed:workconn-reset", "NewWorkConn", detail, true, true)
 	}
 	// 2. structured NAT-hole exchanges
 	n = scale(14, 150)
